@@ -50,10 +50,19 @@ def parseArg (s : String) : Option Logs.Arg :=
   match s.toList with
   | 'i' :: rest => (String.ofList rest).toNat?.map .int
   | 's' :: rest => some (.str (rest.map fun c => if c = '_' then ' ' else c))
+  | 'k' :: rest =>      -- `k<key>=i<nat>` / `k<key>=s<chars>`: one item of the single mapping argument
+    let key := rest.takeWhile (· ≠ '=')
+    match rest.dropWhile (· ≠ '=') with
+    | '=' :: 'i' :: v => (String.ofList v).toNat?.map (.kvInt key)
+    | '=' :: 's' :: v => some (.kvStr key (v.map fun c => if c = '_' then ' ' else c))
+    | _ => none
   | _ => none
 
 def parseArgs (s : String) : Option (List Logs.Arg) :=
-  if s.isEmpty then some [] else (s.splitOn ",").mapM parseArg
+  if s.isEmpty then some [] else do
+    let args ← (s.splitOn ",").mapM parseArg
+    -- either positional arguments or the items of one mapping, never a mixture
+    if args.any Logs.Arg.isKv && !args.all Logs.Arg.isKv then none else pure args
 
 def parseLevel : String → Option Logs.Level
   | "d" => some .debug | "i" => some .info | "w" => some .warning | "e" => some .error | _ => none
